@@ -884,6 +884,13 @@ def _tarExtractFilter(member, path):
     if os.path.commonpath([full_name, path]) != path:
         raise BuildError(f"Refusing to extract '{name}' from tar file. File is outside of destination directory.")
 
+    # Hard links must point to something inside the destination too. Otherwise
+    # later members could modify the link target through the extracted link.
+    if member.islnk():
+        link_name = os.path.realpath(os.path.join(path, member.linkname))
+        if os.path.commonpath([link_name, path]) != path:
+            raise BuildError(f"Refusing to extract hard link '{name}' from tar file. Link target '{member.linkname}' is outside of destination directory.")
+
     return member
 
 def tarfileOpen(*args, **kwargs):
